@@ -162,19 +162,17 @@ theorem map256_is_nearest (c : RGB) (hc : InRange c) :
 example : closest256 G.pal256 (255, 0, 0) = 196 ∧ closest256 G.pal256 (128, 128, 128) = 244 := by
   decide +kernel
 
-/-- evaluated on the regenerated palette: every entry 16..253 except the second black at 232 is
-    returned for its own colour -/
-theorem gen_pal256_fixed :
-    ∀ ip ∈ enumFrom 0 G.pal256, 16 ≤ ip.1 → ip.1 ≠ 232 → closest256 G.pal256 ip.2 = ip.1 := by
-  decide +kernel
+/-- evaluated on the regenerated palette: among the entries 16..253 no colour repeats an earlier
+    one, except the second black at index 232 -/
+theorem gen_pal256_first_occurrence : firstOccB 232 (idx256 G.pal256) = true := by decide +kernel
 
 /-- **C19-f (exact palette colours are fixed).**  Every palette entry 16..253 is mapped to an index
     holding exactly its colour (any palette: `closest256_exact`), and in the palette of /repo to
     itself — except the duplicate black at 232, which is mapped to the first black, index 16. -/
 theorem map256_fixed_points (j : Nat) (h16 : 16 ≤ j) (c : RGB) (hc : G.pal256[j]? = some c) :
-    G.pal256[closest256 G.pal256 c]? = some c ∧ (j ≠ 232 → closest256 G.pal256 c = j) := by
-  refine ⟨(closest256_exact G.pal256 c j h16 hc).1, fun hne => ?_⟩
-  exact gen_pal256_fixed (j, c) (mem_enumFrom.mpr ⟨Nat.zero_le _, by simpa using hc⟩) h16 hne
+    G.pal256[closest256 G.pal256 c]? = some c ∧ (j ≠ 232 → closest256 G.pal256 c = j) :=
+  ⟨(closest256_exact G.pal256 c j h16 hc).1,
+   closest256_fixed_index G.pal256 232 gen_pal256_first_occurrence j h16 c hc⟩
 
 example : closest256 G.pal256 (0, 0, 0) = 16 ∧ G.pal256[232]? = some (0, 0, 0) ∧
     closest256 G.pal256 (0x5f, 0x87, 0xaf) = 67 := by decide +kernel
